@@ -112,7 +112,7 @@ func NewContractSet() *ContractSet {
 
 var reCallLoop = regexp.MustCompile(`^loop\s+([\w.]+#\d+)/(\d+)(?:\s+index\s+(\w+))?\s*:?$`)
 var reLoop = regexp.MustCompile(`^loop\s+(\d+)(?:\s+index\s+(\w+))?\s*:?$`)
-var reAtBody = regexp.MustCompile(`^at\s+body\s+loop\s+(\d+)\s*:\s*(.*)$`)
+var reAtBody = regexp.MustCompile(`^at\s+(body|endbody)\s+loop\s+(\d+)\s*:\s*(.*)$`)
 var reAt = regexp.MustCompile(`^at\s+(before|after)\s+call\s+([\w.]+)#(\d+)\s*:\s*(pass\s+)?(.*)$`)
 var reNamed = regexp.MustCompile(`^([A-Za-z_][\w.\-#]*)\s*:\s*(.*)$`)
 var reProp = regexp.MustCompile(`^C\d{2,3}$`)
@@ -429,12 +429,12 @@ func (cs *ContractSet) LoadContractFile(path string, pkgName string) error {
 				cur.Loops[n] = curLoop
 			case "at":
 				if mb := reAtBody.FindStringSubmatch(t); mb != nil {
-					n, _ := strconv.Atoi(mb[1])
-					lhs, rhs, err := ParseGhostStmt(mb[2])
+					n, _ := strconv.Atoi(mb[2])
+					lhs, rhs, err := ParseGhostStmt(mb[3])
 					if err != nil {
 						return fail(i, "%v", err)
 					}
-					cur.GhostAts = append(cur.GhostAts, GhostAt{Kind: "body", Ord: n, LHS: lhs, RHS: rhs, Src: mb[2]})
+					cur.GhostAts = append(cur.GhostAts, GhostAt{Kind: mb[1], Ord: n, LHS: lhs, RHS: rhs, Src: mb[3]})
 					break
 				}
 				m := reAt.FindStringSubmatch(t)
